@@ -140,3 +140,25 @@ MUTANTS += [
          old="        f_diff = convolve(f_del, fd_rule[::-1], axis=0, origin=n_r // 2)",
          new="        f_diff = convolve(f_del, fd_rule[::-1], axis=0, origin=n_r // 2 - (n_r == 4))"),
 ]
+
+MUTANTS += [
+    dict(id='c05-hessian-backward-plus', props=['C05', 'C04'], file=FD,
+         old="        return HessianDifferenceFunctions._forward(f, f_x, x, -h)", new="        return HessianDifferenceFunctions._forward(f, f_x, x, h)"),
+    dict(id='c05-jacobian-forward-minus', props=['C05', 'C03'], file=FD,
+         old="        return np.array([f(x + hi) - f_x for hi in steps])", new="        return np.array([f_x - f(x - hi) for hi in steps])"),
+    dict(id='c05-central-2h', props=['C05', 'C01'], file=FD,
+         old="    def _central(f, f_x0i, x0i, h):  # @UnusedVariable\n        return (f(x0i + h) - f(x0i - h)) / 2.0",
+         new="    def _central(f, f_x0i, x0i, h):  # @UnusedVariable\n        return (f(x0i + 2 * h) - f(x0i - 2 * h)) / 4.0"),
+    dict(id='c05-multicomplex-real-shift', props=['C05', 'C01'], file=FD,
+         old="        z = Bicomplex(x + 1j * h, 0)\n        return Bicomplex.__array_wrap__(f(z)).imag",
+         new="        z = Bicomplex(x + h * 1e-3 + 1j * h, 0)\n        return Bicomplex.__array_wrap__(f(z)).imag"),
+    dict(id='c05-hessdiag-forward-two-coords', props=['C05', 'C04'], file=FD,
+         old="        partials = [f(x + hi) - f_x for hi in increments]",
+         new="        partials = [f(x + hi + 1e-9 * h) - f_x for hi in increments]"),
+    dict(id='c05-central-asymmetric', props=['C05', 'C01'], file=FD,
+         old="        return (f(x0i + h) + f(x0i - h)) / 2.0 - f_x0i\n\n    @staticmethod\n    def _central(f",
+         new="        return (f(x0i + h) + f(x0i - h * (1 + 1e-6))) / 2.0 - f_x0i\n\n    @staticmethod\n    def _central(f"),
+    dict(id='c05-backward-mixed-side', props=['C05', 'C01'], file=FD,
+         old="    def _backward(f, f_x0i, x0i, h):\n        return f_x0i - f(x0i - h)",
+         new="    def _backward(f, f_x0i, x0i, h):\n        return f_x0i - f(x0i - h) + 0 * f(x0i + 1e-3 * h)"),
+]
